@@ -631,7 +631,13 @@ def code_rules(chk, repo):
                        ('pgradd/ThermoChem/raw_data.py', 'ThermochemRawData'),
                        ('pgradd/ThermoChem/raw_data.py', 'ConstantSpline'),
                        ('pgradd/ThermoChem/base.py', 'ThermochemBase')):
-        for s_ in repo.cls(rel, cname).body:
+        try:
+            cbody = repo.cls(rel, cname).body
+        except AnalysisError:
+            if cname == 'ConstantSpline':
+                continue    # the one-point spline is C05's anchor (R05.x)
+            raise
+        for s_ in cbody:
             if not isinstance(s_, ast.FunctionDef):
                 continue
             if cname == 'ThermochemBase' and s_.name not in (
